@@ -355,12 +355,13 @@ fn translate_region_type(files: &[File], reg: &mut Registry, out: &mut String, r
                         let ty = tr.ty(&c.ty).map_err(|e| format!("{}::{}: {}", what, name, e))?;
                         let mut env: HashMap<String, Ty> = ps.iter().map(|(n, t)| (n.clone(), Ty::Int(t))).collect();
                         let mut st = vec![];
-                        let (term, _) = tr.ex(&c.expr, &mut env, &mut st, Some(ty.clone())).map_err(|e| format!("{}::{}: {}", what, name, e))?;
+                        let cexpr = inline_consts_expr(files, tr.reg, &c.expr);
+                        let (term, _) = tr.ex(&cexpr, &mut env, &mut st, Some(ty.clone())).map_err(|e| format!("{}::{}: {}", what, name, e))?;
                         let term = if st.is_empty() {
                             term
                         } else {
                             // arithmetic over literals (`869_000_000 + 525_000`): folded here, with the type's range check
-                            match (fold_const(&c.expr), &ty) {
+                            match (fold_const(&cexpr), &ty) {
                                 (Some(v), Ty::Int(t)) if crate::tr::int_range(t).0 <= v && v <= crate::tr::int_range(t).1 => v.to_string(),
                                 _ => return Err(format!("{}::{}: not a pure constant expression", what, name)),
                             }
@@ -516,7 +517,8 @@ pub fn region_static(files: &[File], _names: &[String], reg: &mut Registry, out:
         let lean = format!("{}.frequency_valid", w.variant);
         let (text, sig, extra) = {
             let mut tr = new_tr(reg, None, &lean);
-            let (text, sig) = tr.function(&f.sig, &f.block, &lean).map_err(|e| format!("fn {}: {}", w.freq_fn, e))?;
+            let fblock = inline_consts_block(files, tr.reg, &f.block);
+            let (text, sig) = tr.function(&f.sig, &fblock, &lean).map_err(|e| format!("fn {}: {}", w.freq_fn, e))?;
             (text, sig, tr.extra_defs)
         };
         if sig.fallible || sig.ret != Ty::Bool || sig.params.len() != 1 || !matches!(sig.params[0].1, Ty::Int("u32")) {
@@ -1320,4 +1322,126 @@ pub fn frontend_mirrors(files: &[File], _n: &[String], _reg: &mut Registry, out:
         }
     }
     Ok(())
+}
+
+// ------------------------------------------------------------------------------------------------
+// module-level constants referenced by a translated body but not selected by the unit
+
+/// Replace, in `block` / `expr`, every reference to a module-level `const NAME: <int> = <expr>` of the
+/// unit's files whose value folds to an integer literal — and every `NAME[<literal>]` of a
+/// module-level const array of such values — by the typed literal, unless the registry already
+/// knows `NAME` (a constant the unit selects keeps its name in the generated text). A maintainer
+/// hoisting a literal into a `const` then leaves the generated model unchanged.
+pub struct ConstInliner<'a> {
+    pub files: &'a [File],
+    pub known: Vec<String>,
+}
+
+impl<'a> ConstInliner<'a> {
+    pub fn new(files: &'a [File], reg: &Registry) -> Self {
+        ConstInliner { files, known: reg.consts.keys().cloned().collect() }
+    }
+    fn find_const(&self, name: &str) -> Option<&'a ItemConst> {
+        flat_items(self.files).into_iter().find_map(|it| match it {
+            Item::Const(c) if c.ident == name => Some(c),
+            _ => None,
+        })
+    }
+    fn int_suffix(ty: &Type) -> Option<String> {
+        let n = type_name(ty);
+        crate::tr::int_ty(&n).map(|s| s.to_string())
+    }
+    fn value_of(&self, e: &Expr, depth: usize) -> Option<i128> {
+        if depth > 6 {
+            return None;
+        }
+        match e {
+            Expr::Lit(ExprLit { lit: Lit::Int(i), .. }) => i.base10_parse::<i128>().ok(),
+            Expr::Paren(p) => self.value_of(&p.expr, depth),
+            Expr::Group(g) => self.value_of(&g.expr, depth),
+            Expr::Path(p) if p.path.segments.len() == 1 => {
+                let c = self.find_const(&p.path.segments[0].ident.to_string())?;
+                Self::int_suffix(&c.ty)?;
+                self.value_of(&c.expr, depth + 1)
+            }
+            Expr::Binary(b) => {
+                let (l, r) = (self.value_of(&b.left, depth)?, self.value_of(&b.right, depth)?);
+                match b.op {
+                    BinOp::Add(_) => l.checked_add(r),
+                    BinOp::Sub(_) => l.checked_sub(r),
+                    BinOp::Mul(_) => l.checked_mul(r),
+                    BinOp::Shl(_) if (0..64).contains(&r) => Some(l << r),
+                    BinOp::BitOr(_) => Some(l | r),
+                    _ => None,
+                }
+            }
+            _ => None,
+        }
+    }
+    fn literal(v: i128, suffix: &str) -> Option<Expr> {
+        let (lo, hi) = crate::tr::int_range(crate::tr::int_ty(suffix)?);
+        if v < lo || v > hi {
+            return None;
+        }
+        let lit = syn::LitInt::new(&format!("{}{}", v, suffix), proc_macro2::Span::call_site());
+        Some(Expr::Lit(ExprLit { attrs: vec![], lit: Lit::Int(lit) }))
+    }
+    fn replacement(&self, e: &Expr) -> Option<Expr> {
+        match e {
+            Expr::Path(p) if p.path.segments.len() == 1 => {
+                let name = p.path.segments[0].ident.to_string();
+                if self.known.contains(&name) || !name.chars().any(|c| c.is_ascii_uppercase()) || name.chars().any(|c| c.is_ascii_lowercase()) {
+                    return None;
+                }
+                let c = self.find_const(&name)?;
+                let suffix = Self::int_suffix(&c.ty)?;
+                Self::literal(self.value_of(&c.expr, 0)?, &suffix)
+            }
+            Expr::Index(ix) => {
+                let Expr::Path(p) = &*ix.expr else { return None };
+                if p.path.segments.len() != 1 {
+                    return None;
+                }
+                let name = p.path.segments[0].ident.to_string();
+                if self.known.contains(&name) {
+                    return None;
+                }
+                let c = self.find_const(&name)?;
+                let Type::Array(at) = &*c.ty else { return None };
+                let suffix = Self::int_suffix(&at.elem)?;
+                let Expr::Array(arr) = &*c.expr else { return None };
+                let k = self.value_of(&ix.index, 0)?;
+                let el = arr.elems.iter().nth(usize::try_from(k).ok()?)?;
+                Self::literal(self.value_of(el, 0)?, &suffix)
+            }
+            _ => None,
+        }
+    }
+}
+
+impl<'a> syn::visit_mut::VisitMut for ConstInliner<'a> {
+    fn visit_expr_mut(&mut self, e: &mut Expr) {
+        if let Some(r) = self.replacement(e) {
+            *e = r;
+            return;
+        }
+        syn::visit_mut::visit_expr_mut(self, e);
+    }
+    fn visit_item_fn_mut(&mut self, f: &mut ItemFn) {
+        syn::visit_mut::visit_item_fn_mut(self, f);
+    }
+}
+
+pub fn inline_consts_block(files: &[File], reg: &Registry, b: &Block) -> Block {
+    use syn::visit_mut::VisitMut;
+    let mut b = b.clone();
+    ConstInliner::new(files, reg).visit_block_mut(&mut b);
+    b
+}
+
+pub fn inline_consts_expr(files: &[File], reg: &Registry, e: &Expr) -> Expr {
+    use syn::visit_mut::VisitMut;
+    let mut e = e.clone();
+    ConstInliner::new(files, reg).visit_expr_mut(&mut e);
+    e
 }
